@@ -547,4 +547,8 @@ func checkC02(c *vh.Ctx) {
 	tillKernelStage(c, c.N(800, 10000)) // complete mixing only moves mineral N between the tilled layers (any depth, incl. deeper than the four counter slots)
 	deepTillageRuns(c, c.N(4, 40), c02Day)
 	lateMeasureRuns(c, c.N(4, 40), c02Day) // the overwrite day in the middle of a run is excluded, the days around it are not
+	// Denitmo on the whole array (c02_denitmo.go); after the older stages so that their random streams are unchanged
+	denitmoKernelStage(c, c.N(1500, 20000))
+	denitmoRunStage(c, c.N(4, 30), 9, 20)
+	denitmoRunStage(c, c.N(6, 30), 2, 8) // peat profiles shallower than the three 30 cm blocks
 }
